@@ -67,7 +67,11 @@ def solve_lp(
     """
     from scipy.optimize import linprog
 
-    from optyx.analysis import LinearProgramExtractor, is_linear
+    from optyx.analysis import (
+        LinearProgramExtractor,
+        extract_constant_term,
+        is_linear,
+    )
     from optyx.solution import Solution, SolverStatus
 
     # Validate that the problem is linear
@@ -205,6 +209,8 @@ def solve_lp(
         objective_value = float(result.fun)
         if lp_data.sense == "max":
             objective_value = -objective_value
+        # linprog only sees c @ x: add the objective's constant term back
+        objective_value += extract_constant_term(problem.objective)
 
     # Build informative message for unbounded/infeasible cases
     message = result.message if hasattr(result, "message") else ""
